@@ -182,7 +182,7 @@ package rosmar
 //@   ensures [C01,C09,C14:set.stored] err == nil ==> sameDoc(r2, BODY(r, val, b2i(isJSON), (if keep then r.exp else absexp(exp, now)), newCas))
 //@
 //@ fn (*Collection).remove
-//@   modular in=Remove
+//@   modular in=Remove,expireDocuments
 //@   let r = old(doc(c.id, key))
 //@   let r2 = doc(c.id, key)
 //@   requires DocInv(r) && HlcInv(r)
@@ -1115,7 +1115,9 @@ package rosmar
 //@ fn (*Collection).expireDocuments
 //@   loop 1 invariant [C14:expire.collect-loop] true
 //@   loop 2 invariant [C14:expire.delete-loop] true
-//@   loop 2 body [C14:expire.deletes-each] iter("call:Collection.Delete") == 1 && callarg("Collection.Delete", 0) == c
+//@   loop 2 body [C14:expire.deletes-each] iter("call:Collection.Delete") + iter("call:Collection.remove") == 1
+//@   loop 2 body [C01,C14:expire.deletes-only-the-version-found-due] iter("call:Collection.Delete") == 0 && (iter("call:Collection.remove") == 1 ==> callarg("Collection.remove", 0) == c && callarg("Collection.remove", 2) != nil)
+//@   ensures [C01,C14:expire.reads-the-version-with-the-key] cursorCount() >= 1 ==> cursorSelects(0, "key") && cursorSelects(0, "cas")
 //@   ensures [C11,C14:expire.selects-due] cursorCount() >= 1 ==> (forall o: DocId :: cursorWhere(0, o) <==> (old(docAt(o)).present && o.coll == c.id && old(docAt(o)).exp > 0 && old(docAt(o)).exp <= now % 4294967296))
 //@   ensures [C11,C14:expire.scoped] stmtsScoped(c.id)
 //@   ensures [C20:expire.unlocked] any: nolocks()
